@@ -1,6 +1,7 @@
 import TemplVerif.Drive.Common
 import TemplVerif.Model.Ast
 import TemplVerif.Model.Sem
+import TemplVerif.Model.Attrs
 /-
 Wire format of a template body (harness/astser.go writes it from the REAL parser's tree): comma-separated tokens,
 prefix notation with explicit counts; strings in hex.
@@ -126,6 +127,19 @@ def bindingOf (s : String) : Option (List (Bytes × Bytes)) :=
     | [k, v] => do let k ← hexField k; let v ← hexField v; pure (k, v)
     | _ => none
 
+/-- spread attributes as the map the oracle built (`key~kind~value` items joined by `+`); what they render is computed
+    by the Lean model of templ.RenderAttributes (Model/Attrs.lean), not taken from the implementation -/
+def spreadOf (enc : String) : Option (List (Bytes × Attrs.AttrVal)) :=
+  if enc == "-" then some [] else
+  (enc.splitOn "+").mapM fun item => match item.splitOn "~" with
+    | [k, "s", v] => do let k ← hexField k; let v ← hexField v; pure (k, .str v)
+    | [k, "sp", v] => do let k ← hexField k; let v ← hexField v; pure (k, .strPtr (some v))
+    | [k, "spn"] => do let k ← hexField k; pure (k, .strPtr none)
+    | [k, "b", b] => do let k ← hexField k; pure (k, .bool (b == "1"))
+    | [k, "bp", b] => do let k ← hexField k; pure (k, .boolPtr (some (b == "1")))
+    | [k, "bpn"] => do let k ← hexField k; pure (k, .boolPtr none)
+    | _ => none
+
 def valOf (s : String) : Option Val :=
   match s.splitOn "/" with
   | ["S", v, e] => do let v ← hexField v; pure (.str v (e != "0"))
@@ -139,6 +153,7 @@ def valOf (s : String) : Option Val :=
   | ["D"] => some .caseDefault
   | ["C", e, segs] => do let ss ← (segs.splitOn "+").mapM hexField; pure (.comp ss (e != "0"))
   | ["R", v, e] => do let v ← hexField v; pure (.rawOut v (e != "0"))
+  | ["RA", enc] => do let as ← spreadOf enc; pure (.rawOut (Attrs.renderAttributes as) false)
   | ["X", n, f, c] => do let n ← hexField n; let f ← hexField f; let c ← hexField c; pure (.script n f c)
   | ["L", c] => do let c ← hexField c; pure (.classes c)
   | ["J", o, i, e] => do let o ← hexField o; let i ← hexField i; pure (.jsVal o i (e != "0"))
